@@ -22,10 +22,17 @@ var points = []string{
 var causes = []string{"disc-client", "disc-node", "disc-transport", "write-error"}
 
 func runCase(c *kit.Case) {
+	if c.Index%4 == 3 {
+		// keyed (shared-poll) subscriptions: closes inside the broker calls of a track, at the
+		// track / keyed-push yield points and at seeded instants (keyed.go)
+		keyedCase(c)
+		return
+	}
 	r := c.R
 	// the grid of (close point, cause) is enumerated by case index; the rest is seeded
-	pt := points[c.Index%len(points)]
-	cause := causes[(c.Index/len(points))%len(causes)]
+	k := c.Index - (c.Index+1)/4 // position among the non-keyed cases: the grid stays complete
+	pt := points[k%len(points)]
+	cause := causes[(k/len(points))%len(causes)]
 	var inj *churn.Injection
 	if pt != "" {
 		inj = &churn.Injection{Point: pt, Conn: 0, Cause: cause}
@@ -142,11 +149,11 @@ func TestC05(t *testing.T) {
 		Rule: "case index enumerates the grid (close point x close cause): 14 yield points of connect / client-side subscribe / server-side subscribe / unsubscribe / presence tick (+ none) x {Client.Disconnect, Node.Disconnect, transport close, transport write error}; at the point the close is launched on another goroutine and the operation busy-waits until the close flipped the status, then continues. Around it a seeded churn (2-4 connections, 2-3 channels with presence, optional join/leave, sequential or concurrent presence ticks every virtual second, plans that may end in disconnects). " +
 			"After settling: a closed connection has no routing entry, is not registered (connections, sessions), is absent from presence, keeps no bookkeeping; after closing everything the connections/subscriptions gauges are back at their initial values. Signature = (point, cause, injected) x disconnect/unsubscribe callback order.",
 		Assumptions: []string{
-			"map subscriptions and keyed tracking are not part of this workload (their close points are exercised by C22/C25)",
+			"map subscriptions are not part of this workload (their close points are exercised by C22); keyed tracking has its own cases (every fourth case, keyed.go)",
 			"gauges are read from a private Prometheus registry per node",
 		},
 		Cases:           map[string]int{"quick": 840, "thorough": 16800},
-		RequireCounters: []string{"closed_connections_checked", "close_injected_at_sub.afterAddSub", "close_injected_at_sub.afterReply", "close_injected_at_connect.afterAddClient", "close_injected_at_unsub.afterDelete", "close_injected_at_presence.afterSnapshot", "close_by_write-error"},
+		RequireCounters: []string{"keyed_cases", "keyed_closed_connections_checked", "closes_inside_broker_subscribe", "closes_inside_broker_unsubscribe", "closes_at_track_afterReply", "closes_at_keyed_beforeEnqueue", "closes_at_seeded_instants", "closed_connections_checked", "close_injected_at_sub.afterAddSub", "close_injected_at_sub.afterReply", "close_injected_at_connect.afterAddClient", "close_injected_at_unsub.afterDelete", "close_injected_at_presence.afterSnapshot", "close_by_write-error"},
 		Run:             runCase,
 	})
 }
